@@ -33,6 +33,7 @@ FUNCTIONS = [
     "pyxel.configuration.configuration:to_exposure",
     "pyxel.configuration.configuration:to_observation",
     "pyxel.configuration.configuration:to_readout",
+    "pyxel.configuration.configuration:to_exposure_outputs", "pyxel.configuration.configuration:to_observation_outputs",
     "pyxel.configuration.configuration:Configuration.__post_init__",
     "pyxel.pipelines.processor:Processor.set",
 ]
